@@ -9,8 +9,8 @@
     (TRUSTED_BASE; compared on every case through the ordered result lists).
     Graphs: node ids pairwise distinct ([NoDup (node_ids g)], guaranteed by networkx); adjacency is symmetric by
     construction ([LGraph.adj]). *)
-From Coq Require Import List NArith ZArith Bool Arith Permutation.
-From SK Require Import lib.LGraph model.C12_Model proof.C12_Search proof.C12_Proof proof.C12_Prune proof.C12_Enum.
+From Coq Require Import List NArith ZArith Bool Arith Permutation Sorted.
+From SK Require Import lib.LGraph model.C12_Model proof.C12_Search proof.C12_Proof proof.C12_Prune proof.C12_Enum proof.C12_Sorted.
 Import ListNotations.
 
 (** ** 0. the specification: a common induced sub-graph mapping, written out.
@@ -263,3 +263,19 @@ Theorem C12_no_duplicates :
   NoDup (get_mappings d (find_common_subgraph defs prune wc g1 g2 mcs)).
 Proof. exact get_mappings_nodup. Qed.
 Print Assumptions C12_no_duplicates.
+
+(** ** 11. the order of the returned list: sorted by the key (-len(d), tuple(sorted(d.items()))) -- larger mappings first,
+    equal sizes by the lexicographic order of their sorted item tuples ([result_ltb], model/C12_Model.v): no element is
+    followed by a strictly smaller one.  (Direction requests invert every mapping in place and keep the positions.) *)
+Theorem C12_sorted :
+  forall (defs : list N) (prune : bool) (wc : N) (g1 g2 : graph) (mcs : bool),
+  Sorted (fun a b : mapping => result_ltb b a = false)
+         (get_mappings PatternToHost (find_common_subgraph defs prune wc g1 g2 mcs)).
+Proof. exact fcs_sorted. Qed.
+Print Assumptions C12_sorted.
+
+Theorem C12_result_order_meaning :
+  forall a b : mapping,
+  result_ltb a b = true <-> length b < length a \/ (length a = length b /\ items_ltb a b = true).
+Proof. exact result_ltb_meaning. Qed.
+Print Assumptions C12_result_order_meaning.
